@@ -59,6 +59,7 @@ type worldOpts struct {
 	HBONEGws    bool // the gateways also expose an HBONE port
 	NodeLocalB  bool // service b is node-local (internalTrafficPolicy: Local)
 	SameCluster bool // endpoints of c are discoverable from their own cluster only (MCS policy)
+	TrafficDist bool // b: trafficDistribution PreferSameNode, c: PreferSameZone
 }
 
 type epSpec struct {
@@ -110,6 +111,10 @@ func worldServices(o worldOpts) []*model.Service {
 		{Name: "http", Port: 80, Protocol: protocol.HTTP},
 		{Name: "http2", Port: 81, Protocol: protocol.HTTP2},
 	})
+	if o.TrafficDist {
+		b.Attributes.TrafficDistribution = model.TrafficDistributionPreferSameNode
+		c.Attributes.TrafficDistribution = model.TrafficDistributionPreferSameZone
+	}
 	gw := mkService("istio-ingressgateway", "istio-system", "10.0.0.9", "10.0.1.9", nil, model.PortList{
 		{Name: "http2", Port: 80, Protocol: protocol.HTTP2},
 		{Name: "https", Port: 443, Protocol: protocol.HTTPS},
@@ -173,7 +178,7 @@ var (
 		{addr: "10.2.1.1", net: n2, cluster: c2, loc: "region2/zone3/sub3", labels: lbl("app", "b", "version", "v1"), tls: true, node: "node-3", sa: "sa-b"},
 		{addr: "10.2.1.2", net: n2, cluster: c2, loc: "region2/zone3/sub3", labels: lbl("app", "b", "version", "v2"), tls: false, node: "node-3", sa: "sa-b"},
 		{addr: "10.2.2.1", net: n3, cluster: c3, loc: "region3/zone5/sub5", labels: lbl("app", "b", "version", "v1", "networking.istio.io/tunnel", "http"), tls: true, node: "node-5", sa: "sa-b2"},
-		{addr: "10.2.0.4", net: n1, cluster: cK, loc: "region1/zone1/sub1", labels: lbl("app", "b", "version", "v2", "networking.istio.io/tunnel", "http"), tls: false, node: "node-1", sa: "sa-b"},
+		{addr: "10.2.0.4", net: n1, cluster: cK, loc: "region1/zone1/sub1", labels: lbl("app", "b", "version", "v2", "networking.istio.io/tunnel", "http"), tls: false, node: "node-2", sa: "sa-b"},
 		{addr: "10.2.0.9", net: n1, cluster: cK, loc: "region1/zone1/sub1", labels: lbl("app", "b", "version", "v1"), tls: true, node: "node-1", sa: "sa-b", health: model.UnHealthy},
 	}
 	epsC = []epSpec{
@@ -238,13 +243,43 @@ func (c *cfg) meshConfig() *meshconfig.MeshConfig {
 	return m
 }
 
+// baseVariants: other starting points for the single-attribute edits (thorough tier): the same
+// workload seen from the remote cluster / network / region, with both IP families, with IPv6 only.
+var baseVariants = []struct {
+	Name string
+	Edit func(n *nodeSpec)
+}{
+	{"default", func(*nodeSpec) {}},
+	{"remote", func(n *nodeSpec) {
+		n.Meta.ClusterID, n.Meta.Network, n.Meta.NodeName = c2, n2, "node-3"
+		n.Loc = localityOf("region2/zone3/sub3")
+		n.Meta.Labels["version"] = "v2"
+	}},
+	{"dual-stack", func(n *nodeSpec) { n.Meta.InstanceIPs = []string{n.V4, n.V6} }},
+	{"ipv6", func(n *nodeSpec) { n.Meta.InstanceIPs = []string{n.V6} }},
+}
+
+func (c *cfg) baseSpecOf(variant string) *nodeSpec {
+	n := c.baseSpec()
+	for _, v := range baseVariants {
+		if v.Name == variant {
+			v.Edit(n)
+			return n
+		}
+	}
+	if variant != "" {
+		panic("unknown base variant " + variant)
+	}
+	return n
+}
+
 func (c *cfg) baseSpec() *nodeSpec {
 	pc := proto.Clone(c.meshConfig().GetDefaultConfig()).(*meshconfig.ProxyConfig)
 	var n *nodeSpec
 	switch c.Base {
 	case "router":
 		n = &nodeSpec{
-			Type: "router", ID: "istio-ingressgateway-1.istio-system", Domain: "istio-system.svc.cluster.local",
+			Type: "router", ID: "istio-ingressgateway-1.istio-system", Domain: "istio-system.svc.cluster.local", V4: "10.9.0.1", V6: "fd00::9:1",
 			Meta: &model.NodeMetadata{
 				IstioVersion: "1.29.0", Namespace: "istio-system",
 				Labels:      map[string]string{"app": "istio-ingressgateway", "istio": "ingressgateway"},
@@ -254,7 +289,7 @@ func (c *cfg) baseSpec() *nodeSpec {
 		}
 	default:
 		n = &nodeSpec{
-			Type: "sidecar", ID: "app-a-1.default", Domain: "default.svc.cluster.local",
+			Type: "sidecar", ID: "app-a-1.default", Domain: "default.svc.cluster.local", V4: "10.1.0.1", V6: "fd00::1:1",
 			Meta: &model.NodeMetadata{
 				IstioVersion: "1.29.0", Namespace: "default",
 				Labels:      map[string]string{"app": "a", "version": "v1"},
